@@ -70,7 +70,7 @@ func (ex *Exec) eval(st *State, fr *Frame, v ssa.Value) Value {
 			q.Wrap--
 			return q
 		}
-		q := PtrV{Obj: p.Obj, Path: append(append([]int32(nil), p.Path...), int32(x.Field))}
+		q := PtrV{Obj: p.Obj, Path: append(append([]int32(nil), p.Path...), int32(x.Field)), Sym: p.Sym, SymPos: p.SymPos}
 		return q
 	case *ssa.Index:
 		a := ex.get(st, fr, x.X)
@@ -238,6 +238,9 @@ func (ex *Exec) indexAddr(st *State, base Value, i *Term, bt types.Type) Value {
 			return PtrV{Obj: b.Obj, Off: ts.Add(b.Off, i), Safe: true}
 		}
 		idx := ts.Add(b.Off, i)
+		if idx.Op != OConst && ex.symIndexable(ex.cellByPath(st, o, b.Path)) {
+			return PtrV{Obj: b.Obj, Path: append(append([]int32(nil), b.Path...), -1), Sym: idx, SymPos: len(b.Path)}
+		}
 		k := ex.concretize(st, idx, 64, "slice index")
 		return PtrV{Obj: b.Obj, Path: append(append([]int32(nil), b.Path...), int32(k))}
 	case PtrV:
@@ -249,6 +252,9 @@ func (ex *Exec) indexAddr(st *State, base Value, i *Term, bt types.Type) Value {
 		o := ex.obj(st, b.Obj)
 		if o.kind == KBytes {
 			return PtrV{Obj: b.Obj, Off: ts.Add(b.Off, i), Safe: true}
+		}
+		if i.Op != OConst && b.Sym == nil && ex.symIndexable(ex.cellByPath(st, o, b.Path)) {
+			return PtrV{Obj: b.Obj, Path: append(append([]int32(nil), b.Path...), -1), Sym: i, SymPos: len(b.Path)}
 		}
 		k := ex.concretize(st, i, 64, "array index")
 		return PtrV{Obj: b.Obj, Path: append(append([]int32(nil), b.Path...), int32(k))}
@@ -303,6 +309,9 @@ func (ex *Exec) load(st *State, p PtrV, t types.Type) Value {
 	if o.kind != KCells {
 		panic(unsupported("load from map object"))
 	}
+	if p.Sym != nil {
+		return ex.symLoad(st, o, p)
+	}
 	c := ex.cellByPath(st, o, p.Path)
 	v := ex.cellLoad(c)
 	// reinterpretation: *[]byte read as *string and similar header puns
@@ -348,8 +357,99 @@ func (ex *Exec) store(st *State, p PtrV, v Value, t types.Type) {
 		return
 	}
 	ow := ex.objW(st, p.Obj)
+	if p.Sym != nil {
+		ex.symStore(st, ow, p, v)
+		return
+	}
 	c := ex.cellByPath(st, ow, p.Path)
 	ex.cellStore(c, v)
+}
+
+// ---- symbolic element index into small dense arrays of scalar cells: ite instead of forking
+
+func scalarCells(c *Cell) bool {
+	if c.sparse != nil {
+		return false
+	}
+	if c.kids == nil {
+		_, ok := c.val.(*Term)
+		return ok
+	}
+	for _, k := range c.kids {
+		if !scalarCells(k) {
+			return false
+		}
+	}
+	return true
+}
+
+func (ex *Exec) symIndexable(arr *Cell) bool {
+	if arr.sparse != nil || !arr.isArr || len(arr.kids) == 0 || len(arr.kids) > 40 {
+		return false
+	}
+	for _, k := range arr.kids {
+		if !scalarCells(k) {
+			return false
+		}
+	}
+	return true
+}
+
+func (ex *Exec) iteValue(c *Term, a, b Value) Value {
+	switch av := a.(type) {
+	case *Term:
+		return ex.ts.Ite(c, av, b.(*Term))
+	case StructV:
+		bv := b.(StructV)
+		r := make(StructV, len(av))
+		for i := range av {
+			r[i] = ex.iteValue(c, av[i], bv[i])
+		}
+		return r
+	case ArrayV:
+		bv := b.(ArrayV)
+		r := make(ArrayV, len(av))
+		for i := range av {
+			r[i] = ex.iteValue(c, av[i], bv[i])
+		}
+		return r
+	}
+	panic(unsupported(fmt.Sprintf("ite over %T", a)))
+}
+
+func (ex *Exec) symCells(st *State, o *Object, p PtrV) []*Cell {
+	arr := ex.cellByPath(st, o, p.Path[:p.SymPos])
+	out := make([]*Cell, len(arr.kids))
+	for k := range arr.kids {
+		c := arr.kids[k]
+		for _, f := range p.Path[p.SymPos+1:] {
+			c = ex.cellAt(c, int64(f))
+		}
+		out[k] = c
+	}
+	return out
+}
+
+func (ex *Exec) symLoad(st *State, o *Object, p PtrV) Value {
+	cells := ex.symCells(st, o, p)
+	var r Value
+	for k := len(cells) - 1; k >= 0; k-- {
+		v := ex.cellLoad(cells[k])
+		if r == nil {
+			r = v
+			continue
+		}
+		r = ex.iteValue(ex.ts.Eq(p.Sym, ex.ts.Const(64, uint64(k))), v, r)
+	}
+	return r
+}
+
+func (ex *Exec) symStore(st *State, ow *Object, p PtrV, v Value) {
+	cells := ex.symCells(st, ow, p)
+	for k, c := range cells {
+		old := ex.cellLoad(c)
+		ex.cellStore(c, ex.iteValue(ex.ts.Eq(p.Sym, ex.ts.Const(64, uint64(k))), v, old))
+	}
 }
 
 // ---------------------------------------------------------------- slicing
